@@ -243,6 +243,15 @@ LAYOUTS = [("client1", None), ("acme.client1", None), ("acme.client1", "acme.cor
 
 
 def mk_doc(ctx: Ctx) -> specgen.Doc:
+    if ctx.rng.random() < 0.15:
+        # discriminated unions whose variants pin the discriminator with an inline one-value enum (the models step treats
+        # those enums specially: both generation paths must agree on them)
+        from . import c14
+        vs = ctx.rng.sample(list(c14.DISC), ctx.rng.randint(2, 3))
+        d = specgen.Doc(c14.build_doc([{"name": "Du1", "variants": vs, "kw": "oneOf", "disc": True},
+                                       {"name": "Du2", "variants": list(reversed(vs)), "kw": "oneOf", "disc": True, "nullable": True}]),
+                        {}, [], {"discriminated_union_document"})
+        return d
     if ctx.rng.random() < 0.25:
         # schema-centred document: many promoted inline schemas, nested containers, named maps / aliases (import and
         # declaration order of those is where set / dict iteration order could leak)
